@@ -301,6 +301,12 @@ func (w *PollWorker) Process(mesg *aio.Message) {
 		return
 	}
 
+	// receiver data may be absent or the JSON literal null
+	if data == nil {
+		mesg.Done(false, fmt.Errorf("missing receiver data"))
+		return
+	}
+
 	// check if we have a connection
 	conn, ok := w.connections.get(data.Group, data.Id)
 	if !ok {
